@@ -274,6 +274,10 @@ package workceptor
 //@   protects activeUnits
 //@   inv AU: w.activeUnits != nil && forall k string :: (k in w.activeUnits) ==> w.activeUnits[k] != nil
 
+// ---- lock order (C08 C13): a unit's status lock may be held when the unit index is locked (Release removes the
+// unit from the index under its own status lock), never the other way round in code under contract.
+//@ order BaseWorkUnit.statusLock < Workceptor.activeUnitsLock
+
 //@ func functype NewWorkerFunc
 //@   params fn, bwu, w, unitID, workType
 //@   modifies nothing
